@@ -41,9 +41,29 @@ func For(prop string) []Harness {
 			out = append(out, h)
 		}
 	}
+	if prop == "C11" {
+		// the race build also runs the other properties' workloads (their oracles stay on, their
+		// harness-side bookkeeping races are classified as harness-only and ignored): many more ways of
+		// driving the API than the dedicated C11 workloads, all judged by the race detector
+		for _, h := range registry {
+			if h.Prop != "C11" && !raceSkip[h.Name] {
+				h.Name = "C11/as-" + h.Name
+				h.Prop = "C11"
+				h.Weight = 1
+				out = append(out, h)
+			}
+		}
+	}
 	sort.SliceStable(out, func(i, j int) bool { return out[i].Name < out[j].Name })
 	return out
 }
+
+// raceSkip lists harnesses that are not reused by C11: misuse harnesses drive the library outside its
+// contract, which C11 excludes.
+// The C16 harnesses publish the combinator's result to already-running observer tasks through a plain
+// harness variable, which the detector rightly sees as a harness-side race on the context's memory.
+var raceSkip = map[string]bool{"C08/misuse": true, "C08/misuse-literal": true,
+	"C16/combine": true, "C16/conflated": true, "C16/chain": true}
 
 func Props() []string {
 	seen := map[string]bool{}
